@@ -95,6 +95,19 @@ def run(res, tier):
         for loc, at in p.writes:
             if loc[:2] == (("o", storep.id), "deref") and len(loc) >= 3 and loc[2][0] == "f":
                 fld = sp_fields[loc[2][1]]
+                if fld == "file":
+                    # the open handle on the stored version may only be given up once the update can no longer be
+                    # abandoned, i.e. after the last call of the object generator
+                    later_gen = [e for e in evs[at:] if e.kind in ("call", "enter") and re.search(r"call_mut$|closure@", e.name)]
+                    if later_gen:
+                        key = "mir:store:in-memory-file-dropped-before-objects-complete"
+                        if not any(v["key"] == key for v in res.violations):
+                            fn = mprop.write_cex(res, "early_file_write_%d" % i, p, E,
+                                                 "StoredPoint.file (the handle on the stored version) is taken while the object "
+                                                 "generator can still abort the update")
+                            res.violation(key, "the stored point gives up its open file before the fetched objects are complete: "
+                                          "after an abandoned update the previous version yields no objects", fn)
+                    continue
                 if fld not in ("manifest",):
                     continue
                 okp = [e for e in evs[:at] if e.kind == "call" and re.search(r"persist$", e.name)]
